@@ -423,3 +423,48 @@ Definition check_parse (c : string * option (list (string * string))) : bool :=
   odict_eqb (status_parse (fst c)) (snd c).
 Definition check_print (c : list (string * string) * string) : bool :=
   String.eqb (status_print (fst c)) (snd c).
+
+(* ================================================================ creation of an instance *)
+(* Experiment.experimentFromPackage / experimentFromInstance -> Experiment.__init__: the FIRST write of the state
+   files, when there is no previous version.  Two phases:
+   phase 1 (xs) FlowIRExperimentConfiguration._generate_instance_files: conf/flowir_instance.yaml then
+           conf/manifest.yaml, each in its own try/except, the errors are collected; when there is one,
+           Experiment.__init__ raises before phase 2, and experimentFromPackage then removes the whole instance
+           directory ([wipe] = true; experimentFromInstance leaves the directory as it is: [wipe] = false);
+   phase 2 (ys) output/status.txt by Status.update() when the file does not exist; an I/O error is logged and
+           the constructor returns.
+   A process death is a death wherever it falls. *)
+Definition wipe_ops (xs : list txn) : list fsop := map Remove (flat_map (fun x => [tmp x; dst x]) xs).
+Definition aborts (xs : list txn) (f : fault) : bool :=
+  match f with EIO k _ => k <? length (exec xs true NoFault) | _ => false end.
+Definition exec2 (wipe : bool) (xs ys : list txn) (f : fault) : list fsop :=
+  if aborts xs f then (exec xs true f ++ (if wipe then wipe_ops (xs ++ ys) else []))%list
+  else exec (xs ++ ys)%list true f.
+
+Definition create_conf (ci cm : list string) : list txn :=
+  [good_txn "T1" "flowir_instance.yaml" (fun _ => ci) true true;
+   good_txn "T2" "manifest.yaml" (fun _ => cm) true true].
+(* status.txt is only written when it does not exist yet (otherwise it is loaded) *)
+Definition create_status (d : option (list (string * string))) : list txn :=
+  match d with
+  | Some d => [good_txn "T3" "status.txt" (fun _ => status_chunks d) false false]
+  | None => []
+  end.
+
+(* one creation: (removes the directory on failure?, phase 1, phase 2), the files before, the observed fault-free
+   trace, and per fault: the shape of the observed trace (without the removal of the directory), whether the
+   instance directory was gone afterwards, and what was observed in every file of interest *)
+Definition kcase := (fault * (list fsop * (bool * list (path * otag))))%type.
+Definition ccase := ((bool * (list txn * list txn)) * (fs * (list fsop * list kcase)))%type.
+
+Definition check_create_fault (w : bool) (xs ys : list txn) (s0 : fs) (c : kcase) : bool :=
+  let f := fst c in
+  list_eqb fsop_eqb (map shape (exec2 false xs ys f)) (fst (snd c)) &&
+  Bool.eqb (fst (snd (snd c))) (w && aborts xs f) &&
+  forallb (fun pc => otag_ok (xs ++ ys)%list s0 (run (exec2 w xs ys f) s0) (fst pc) (snd pc)) (snd (snd (snd c))).
+
+Definition check_create (u : ccase) : bool :=
+  let w := fst (fst u) in let xs := fst (snd (fst u)) in let ys := snd (snd (fst u)) in
+  let s0 := fst (snd u) in
+  list_eqb fsop_eqb (exec2 w xs ys NoFault) (fst (snd (snd u))) &&
+  forallb (check_create_fault w xs ys s0) (snd (snd (snd u))).
